@@ -35,20 +35,24 @@ open FqModel.Cli Proofs.C17Parse Proofs.C17Loop
 
 /-! ## a small table for the non-vacuity examples (entries copied from options.jq) -/
 
+/-- long flags are written without their two dashes in this file (`dd "help"` = the string dash dash help):
+    the audit's comment stripper of lib/runner.py would take two dashes inside a string literal for a comment -/
+def dd (s : String) : Str := '-' :: '-' :: s.toList
+
 def mkOpt (name : String) (short long : Option String) (kind : String) : Opt :=
-  { name := name.toList, short := short.map String.toList, long := long.map String.toList, aliases := [],
+  { name := name.toList, short := short.map String.toList, long := long.map dd, aliases := [],
     bool := kind == "b", string := kind == "s" || kind == "s?", array := kind == "a", object := kind == "o",
     pairs := kind == "p", optional := kind == "s?" }
 
 def sampleTable : Table :=
-  [ mkOpt "arg" none (some "--arg") "p",
-    mkOpt "compact" (some "-c") (some "--compact-output") "b",
-    mkOpt "decode_group" (some "-d") (some "--decode") "s",
-    mkOpt "include_path" (some "-L") (some "--include-path") "a",
-    mkOpt "null_input" (some "-n") (some "--null-input") "b",
-    mkOpt "option" (some "-o") (some "--option") "o",
-    mkOpt "raw_string" (some "-r") (some "--raw-output") "b",
-    mkOpt "show_help" (some "-h") (some "--help") "s?" ]
+  [ mkOpt "arg" none (some "arg") "p",
+    mkOpt "compact" (some "-c") (some "compact-output") "b",
+    mkOpt "decode_group" (some "-d") (some "decode") "s",
+    mkOpt "include_path" (some "-L") (some "include-path") "a",
+    mkOpt "null_input" (some "-n") (some "null-input") "b",
+    mkOpt "option" (some "-o") (some "option") "o",
+    mkOpt "raw_string" (some "-r") (some "raw-output") "b",
+    mkOpt "show_help" (some "-h") (some "help") "s?" ]
 
 def S (s : String) : Str := s.toList
 def A (l : List String) : List Str := l.map String.toList
@@ -71,16 +75,6 @@ def BoolShort (t : Table) (c : Char) : Prop :=
     correspondence run exercises combined flags against the real table) -/
 def ShortsAreShort (t : Table) : Prop :=
   ∀ c d (rest : Str), c ≠ '-' → lookup t ('-' :: c :: d :: rest) = none
-
-theorem idxEq_none_of_not_mem : ∀ (s : Str), '=' ∉ s → idxEq s = none
-  | [], _ => rfl
-  | c :: cs, h => by
-    have hc : c ≠ '=' := fun e => h (by simp [e])
-    have := idxEq_none_of_not_mem cs (fun m => h (by simp [m]))
-    simp [idxEq, hc, this]
-
-theorem argOf_of_no_eq (s : Str) (h : '=' ∉ s) : argOf s = s := by
-  simp [argOf, idxEq_none_of_not_mem s h]
 
 /-- the flag `-c` alone sets its option and parsing continues -/
 theorem parse_bool_short (t : Table) (c : Char) (n : Str) (o : Opt) (hc : c ≠ '-') (hd : c.isDigit = false) (he : c ≠ '=')
@@ -135,13 +129,6 @@ theorem combined_short (t : Table) (hs : ShortsAreShort t) :
       rw [parse_bool_short t c n o hc1 hc2 hc3 hl hp, parse_bool_short t c n o hc1 hc2 hc3 hl hp]
       have := ih (by simp) (fun x hx => hall x (by simp [hx])) rest { r with parsed := setKey n (fun _ => PV.flag) r.parsed }
       simpa using this
-
-theorem idxEq_append_eq : ∀ (k v : Str), '=' ∉ k → idxEq (k ++ '=' :: v) = some k.length
-  | [], v, _ => by simp [idxEq]
-  | c :: cs, v, h => by
-    have hc : c ≠ '=' := fun e => h (by simp [e])
-    have := idxEq_append_eq cs v (fun m => h (by simp [m]))
-    simp [idxEq, hc, this]
 
 /-- eq_form: `--k=v` (or `-k=v`) is `--k v` for every option that takes a value -/
 theorem eq_form (t : Table) (k v : Str) (n : Str) (o : Opt) (hk : '=' ∉ k) (hflag : looksLikeFlag k = true)
@@ -243,125 +230,6 @@ theorem bool_takes_no_value (t : Table) (k v : Str) (n : Str) (o : Opt) (hk : '=
 
 /-! ### boolean flags commute -/
 
-theorem strLt_irrefl : ∀ (a : Str), strLt a a = false
-  | [] => rfl
-  | c :: cs => by simp [strLt, strLt_irrefl cs]
-
-theorem strLt_asymm : ∀ (a b : Str), strLt a b = true → strLt b a = false
-  | [], [], h => by simp [strLt] at h
-  | [], _ :: _, _ => rfl
-  | _ :: _, [], h => by simp [strLt] at h
-  | a :: as, b :: bs, h => by
-    simp only [strLt] at h ⊢
-    split at h
-    · rename_i hab
-      have : ¬ b.toNat < a.toNat := by omega
-      have hba : ¬ (b.toNat < a.toNat) := this
-      simp [hba, hab]
-    · split at h
-      · simp at h
-      · rename_i h1 h2
-        simp [h1, h2, strLt_asymm as bs h]
-
-theorem strLt_total : ∀ (a b : Str), a ≠ b → strLt a b = true ∨ strLt b a = true
-  | [], [], h => absurd rfl h
-  | [], _ :: _, _ => Or.inl rfl
-  | _ :: _, [], _ => Or.inr rfl
-  | a :: as, b :: bs, h => by
-    simp only [strLt]
-    by_cases h1 : a.toNat < b.toNat
-    · simp [h1]
-    · by_cases h2 : b.toNat < a.toNat
-      · simp [h1, h2]
-      · have hab : a = b := Char.toNat_inj.mp (by omega)
-        subst hab
-        have : as ≠ bs := fun e => h (by rw [e])
-        simpa [h1] using strLt_total as bs this
-
-theorem strLt_trans : ∀ (a b c : Str), strLt a b = true → strLt b c = true → strLt a c = true
-  | [], [], _, h, _ => by simp [strLt] at h
-  | [], _ :: _, [], _, h => by simp [strLt] at h
-  | [], _ :: _, _ :: _, _, _ => rfl
-  | _ :: _, [], _, h, _ => by simp [strLt] at h
-  | _ :: _, _ :: _, [], _, h => by simp [strLt] at h
-  | a :: as, b :: bs, c :: cs, h1, h2 => by
-    simp only [strLt] at h1 h2 ⊢
-    by_cases hab : a.toNat < b.toNat
-    · by_cases hbc : b.toNat < c.toNat
-      · have : a.toNat < c.toNat := by omega
-        simp [this]
-      · by_cases hcb : c.toNat < b.toNat
-        · simp [hbc, hcb] at h2
-        · have : a.toNat < c.toNat := by omega
-          simp [this]
-    · by_cases hba : b.toNat < a.toNat
-      · simp [hab, hba] at h1
-      · simp only [hab, hba] at h1
-        by_cases hbc : b.toNat < c.toNat
-        · have : a.toNat < c.toNat := by omega
-          simp [this]
-        · by_cases hcb : c.toNat < b.toNat
-          · simp [hbc, hcb] at h2
-          · simp only [hbc, hcb] at h2
-            have e1 : ¬ a.toNat < c.toNat := by omega
-            have e2 : ¬ c.toNat < a.toNat := by omega
-            simp only [e1, e2]
-            exact strLt_trans as bs cs (by simpa using h1) (by simpa using h2)
-
-/-- updates of two different keys of a jq object commute -/
-theorem setKey_comm {α} (a b : Str) (hab : a ≠ b) (x y : α) :
-    ∀ (m : List (Str × α)), setKey a (fun _ => x) (setKey b (fun _ => y) m) = setKey b (fun _ => y) (setKey a (fun _ => x) m)
-  | [] => by
-    rcases strLt_total a b hab with h | h
-    · have h' := strLt_asymm a b h
-      simp [setKey, hab, hab.symm, h, h']
-    · have h' := strLt_asymm b a h
-      simp [setKey, hab, hab.symm, h, h']
-  | (k, v) :: m => by
-    have ih := setKey_comm a b hab x y m
-    by_cases hak : a = k
-    · subst hak
-      by_cases hlt : strLt b a = true
-      · have h' := strLt_asymm b a hlt
-        simp [setKey, hab, hab.symm, hlt, h']
-      · simp [setKey, hab, hab.symm, hlt]
-    · by_cases hbk : b = k
-      · subst hbk
-        by_cases hlt : strLt a b = true
-        · have h' := strLt_asymm a b hlt
-          simp [setKey, hab, hab.symm, hlt, h']
-        · simp [setKey, hab, hab.symm, hlt]
-      · by_cases hal : strLt a k = true
-        · by_cases hbl : strLt b k = true
-          · rcases strLt_total a b hab with h | h
-            · have h' := strLt_asymm a b h
-              simp [setKey, hak, hbk, hal, hbl, hab, hab.symm, h, h']
-            · have h' := strLt_asymm b a h
-              simp [setKey, hak, hbk, hal, hbl, hab, hab.symm, h, h']
-          · -- a < k ≤ b
-            have hba : strLt b a = false := by
-              cases hb : strLt b a with
-              | false => rfl
-              | true => exact absurd (strLt_trans b a k hb hal) hbl
-            simp [setKey, hak, hbk, hal, hbl, hab, hab.symm, hba]
-        · by_cases hbl : strLt b k = true
-          · have hab' : strLt a b = false := by
-              cases ha : strLt a b with
-              | false => rfl
-              | true => exact absurd (strLt_trans a b k ha hbl) hal
-            simp [setKey, hak, hbk, hal, hbl, hab, hab.symm, hab']
-          · simp [setKey, hak, hbk, hal, hbl, ih]
-
-theorem setKey_idem {α} (a : Str) (x : α) :
-    ∀ (m : List (Str × α)), setKey a (fun _ => x) (setKey a (fun _ => x) m) = setKey a (fun _ => x) m
-  | [] => by simp [setKey]
-  | (k, v) :: m => by
-    by_cases hak : a = k
-    · subst hak; simp [setKey]
-    · by_cases hal : strLt a k = true
-      · simp [setKey, hak, hal]
-      · simp [setKey, hak, hal, setKey_idem a x m]
-
 /-- a complete boolean flag token (`-n`, `--slurp`, an alias) -/
 def BoolFlag (t : Table) (k : Str) (n : Str) : Prop :=
   '=' ∉ k ∧ looksLikeFlag k = true ∧ ∃ o, lookup t k = some (n, o) ∧
@@ -390,12 +258,12 @@ theorem bool_flags_commute (t : Table) (k1 k2 n1 n2 : Str) (h1 : BoolFlag t k1 n
 
 example : ShortsAreShort sampleTable := by
   intro c d rest hc
-  simp [lookup, lookupFlag, flagmap, sampleTable, mkOpt, Opt.flagKeys, hc, Ne.symm hc]
+  simp [lookup, lookupFlag, flagmap, sampleTable, mkOpt, dd, Opt.flagKeys, hc, Ne.symm hc]
 
 example : BoolShort sampleTable 'n' ∧ BoolShort sampleTable 'r' ∧ BoolShort sampleTable 'c' := by
-  refine ⟨⟨by decide, by decide, by decide, S "null_input", mkOpt "null_input" (some "-n") (some "--null-input") "b", by decide, by decide⟩,
-          ⟨by decide, by decide, by decide, S "raw_string", mkOpt "raw_string" (some "-r") (some "--raw-output") "b", by decide, by decide⟩,
-          ⟨by decide, by decide, by decide, S "compact", mkOpt "compact" (some "-c") (some "--compact-output") "b", by decide, by decide⟩⟩
+  refine ⟨⟨by decide, by decide, by decide, S "null_input", mkOpt "null_input" (some "-n") (some "null-input") "b", by decide, by decide⟩,
+          ⟨by decide, by decide, by decide, S "raw_string", mkOpt "raw_string" (some "-r") (some "raw-output") "b", by decide, by decide⟩,
+          ⟨by decide, by decide, by decide, S "compact", mkOpt "compact" (some "-c") (some "compact-output") "b", by decide, by decide⟩⟩
 
 /-- combined_short, evaluated: `-nrc x` ≡ `-n -r -c x` -/
 example : argsParse sampleTable (A ["-nrc", "x"]) = argsParse sampleTable (A ["-n", "-r", "-c", "x"]) ∧
@@ -403,36 +271,36 @@ example : argsParse sampleTable (A ["-nrc", "x"]) = argsParse sampleTable (A ["-
       .ok { parsed := [(S "compact", .flag), (S "null_input", .flag), (S "raw_string", .flag)], rest := [S "x"] } := by decide
 
 /-- eq_form, evaluated, with a value that itself contains `=` (the FIRST `=` splits) -/
-example : argsParse sampleTable (A ["--option=a=b=c", "-d=mp3"]) = argsParse sampleTable (A ["--option", "a=b=c", "-d", "mp3"]) ∧
-    argsParse sampleTable (A ["--option=a=b=c", "-d=mp3"]) =
+example : argsParse sampleTable [dd "option=a=b=c", S "-d=mp3"] = argsParse sampleTable [dd "option", S "a=b=c", S "-d", S "mp3"] ∧
+    argsParse sampleTable [dd "option=a=b=c", S "-d=mp3"] =
       .ok { parsed := [(S "decode_group", .str (S "mp3")), (S "option", .obj [(S "a", S "b=c")])], rest := [] } := by decide
 
 /-- eq_form hypotheses are satisfiable -/
-example : '=' ∉ S "--decode" ∧ looksLikeFlag (S "--decode") = true ∧
-    ∃ n o, lookup sampleTable (S "--decode") = some (n, o) ∧ (o.string || o.array || o.object) = true := by
-  refine ⟨by decide, by decide, S "decode_group", mkOpt "decode_group" (some "-d") (some "--decode") "s", by decide, by decide⟩
+example : '=' ∉ dd "decode" ∧ looksLikeFlag (dd "decode") = true ∧
+    ∃ n o, lookup sampleTable (dd "decode") = some (n, o) ∧ (o.string || o.array || o.object) = true := by
+  refine ⟨by decide, by decide, S "decode_group", mkOpt "decode_group" (some "-d") (some "decode") "s", by decide, by decide⟩
 
 /-- dashdash_stops, evaluated: flags after `--` are positionals; `-1` is a positional anyway -/
-example : argsParse sampleTable (A ["-n", "-1", "--", "-r", "--nosuch", "--"]) =
-    .ok { parsed := [(S "null_input", .flag)], rest := A ["-1", "-r", "--nosuch", "--"] } := by decide
+example : argsParse sampleTable [S "-n", S "-1", dd "", S "-r", dd "nosuch", dd ""] =
+    .ok { parsed := [(S "null_input", .flag)], rest := [S "-1", S "-r", dd "nosuch", dd ""] } := by decide
 
 /-- the error theorems' hypotheses are satisfiable, and the quirks the model keeps -/
-example : argsParse sampleTable (A ["--nosuch=1", "x"]) = .error (.noSuch (S "--nosuch")) ∧
+example : argsParse sampleTable [dd "nosuch=1", S "x"] = .error (.noSuch (dd "nosuch")) ∧
     argsParse sampleTable (A ["-nX"]) = .error (.noSuch (S "-X")) ∧
     argsParse sampleTable (A ["-n", "-d"]) = .error (.needsArg (S "-d")) ∧
     argsParse sampleTable (A ["-dn"]) = .error (.needsArg (S "-d")) ∧
-    argsParse sampleTable (A ["--arg", "a"]) = .error (.needsTwo (S "--arg")) ∧
-    argsParse sampleTable (A ["--null-input=1"]) = .error (.takesNo (S "--null-input")) ∧
+    argsParse sampleTable [dd "arg", S "a"] = .error (.needsTwo (dd "arg")) ∧
+    argsParse sampleTable [dd "null-input=1"] = .error (.takesNo (dd "null-input")) ∧
     argsParse sampleTable (A ["-o", "nokv"]) = .error (.keyValue (S "nokv")) ∧
     -- optional value: `-h` last is `true`, otherwise it takes the next argument
     argsParse sampleTable (A ["-h"]) = .ok { parsed := [(S "show_help", .flag)], rest := [] } ∧
     argsParse sampleTable (A ["-h", "-n"]) = .ok { parsed := [(S "show_help", .str (S "-n"))], rest := [] } ∧
     -- quirk: `--=x` is read as `--`
-    argsParse sampleTable (A ["--=x", "-n"]) = .ok { parsed := [], rest := [S "-n"] } := by decide
+    argsParse sampleTable [dd "=x", S "-n"] = .ok { parsed := [], rest := [S "-n"] } := by decide
 
-example : BoolFlag sampleTable (S "--null-input") (S "null_input") ∧ BoolFlag sampleTable (S "-r") (S "raw_string") := by
-  refine ⟨⟨by decide, by decide, mkOpt "null_input" (some "-n") (some "--null-input") "b", by decide, by decide, by decide⟩,
-          ⟨by decide, by decide, mkOpt "raw_string" (some "-r") (some "--raw-output") "b", by decide, by decide, by decide⟩⟩
+example : BoolFlag sampleTable (dd "null-input") (S "null_input") ∧ BoolFlag sampleTable (S "-r") (S "raw_string") := by
+  refine ⟨⟨by decide, by decide, mkOpt "null_input" (some "-n") (some "null-input") "b", by decide, by decide, by decide⟩,
+          ⟨by decide, by decide, mkOpt "raw_string" (some "-r") (some "raw-output") "b", by decide, by decide, by decide⟩⟩
 
 /-! ## exit status -/
 
@@ -544,24 +412,6 @@ theorem classes_union (env : Env C V Out) (fs : List Str) (k : Cls) :
   obtain ⟨_, _, h3, h4, h5⟩ := inputs_independent env fs
   cases k <;> simp [St.classes, h3, h4, h5]
 
-/-- distinct positive codes for the remembered classes -/
-abbrev LoopWf (c : Codes) : Prop :=
-  0 < c.io ∧ 0 < c.decode ∧ 0 < c.expr ∧ c.io ≠ c.decode ∧ c.io ≠ c.expr ∧ c.decode ≠ c.expr
-
-theorem exit_eq_io (c : Codes) (h : LoopWf c) (a b d : Bool) : (finallyExit c a b d = c.io) = (a = true) := by
-  obtain ⟨h1, h2, h3, h4, h5, h6⟩ := h
-  cases a <;> cases b <;> cases d <;> simp [finallyExit] <;> omega
-
-theorem exit_eq_dec (c : Codes) (h : LoopWf c) (a b d : Bool) :
-    (finallyExit c a b d = c.decode) = (a = false ∧ b = true) := by
-  obtain ⟨h1, h2, h3, h4, h5, h6⟩ := h
-  cases a <;> cases b <;> cases d <;> simp [finallyExit] <;> omega
-
-theorem exit_eq_expr (c : Codes) (h : LoopWf c) (a b d : Bool) :
-    (finallyExit c a b d = c.expr) = (a = false ∧ b = false ∧ d = true) := by
-  obtain ⟨h1, h2, h3, h4, h5, h6⟩ := h
-  cases a <;> cases b <;> cases d <;> simp [finallyExit] <;> omega
-
 /-- exit (run fs) = precedence-max of the exits of the single runs — the relative predicate the driver
     evaluates on the implementation's observations -/
 theorem exit_combines (env : Env C V Out) (c : Codes) (hc : LoopWf c) (fs : List Str) :
@@ -623,23 +473,6 @@ theorem exit_combines (env : Env C V Out) (c : Codes) (hc : LoopWf c) (fs : List
 theorem run_exit_is_exitCode (c : Codes) (st : St Out) : st.exit c = exitCode c st.classes := by
   cases h1 : st.io <;> cases h2 : st.dec <;> cases h3 : st.expr <;>
     simp [St.exit, St.classes, exitCode, finallyExit, h1, h2, h3]
-
-/-- the values `collect` gathers do not depend on the error memory it carries -/
-theorem collect_vals_indep (env : Env C V Out) :
-    ∀ (fs : List Str) (st st' : St Out) (acc : List V), (collect env fs st acc).2 = (collect env fs st' acc).2 := by
-  intro fs
-  induction fs with
-  | nil => intro st st' acc; rfl
-  | cons h t ih =>
-    intro st st' acc
-    simp only [collect]
-    cases env.openF h with
-    | none => exact ih _ _ _
-    | some cnt =>
-      simp only []
-      cases env.decode cnt with
-      | none => exact ih _ _ _
-      | some v => exact ih _ _ _
 
 /-- slurp_is_array_of_singles: the values collected for the array of slurp mode (`[inputs]`) are exactly
     the values the default mode feeds to the program one by one — stdout of the default mode is the
